@@ -25,7 +25,7 @@ class Obl:
     def __init__(self, name, props, grade, harness, roots=(), cfg='default', stop=(), specs=None, entry='harness',
                  enforce=None, replace=(), loop_contracts=False, unwind=None, unwindset=(), defines=(), solver='minisat',
                  timeout=300, tier='quick', extra_flags=(), src=None, includes=(), bound=None, note='', expect_fail=None,
-                 no_checks=False, contract_text=None, canary=True, object_bits=None, functions=None, globals=(), bufn=None, replay_fn=None, enums=()):
+                 no_checks=False, contract_text=None, canary=True, object_bits=None, functions=None, globals=(), bufn=None, replay_fn=None, enums=(), stub=()):
         self.name, self.props, self.grade, self.harness = name, list(props), grade, harness
         self.roots, self.cfg, self.stop = list(roots), cfg, list(stop)
         self.specs = dict(specs or {})
@@ -41,6 +41,7 @@ class Obl:
         self.globals = list(globals)
         self.bufn = bufn
         self.enums = list(enums)
+        self.stub = list(stub)   # callees replaced by the executable form of their contract (no DFCC)
         self.replay_fn = replay_fn
         self.functions = functions  # names reported as "under contract" (default: roots)
 
@@ -96,7 +97,7 @@ def _build_tu(o, canary=False, witness=False):
     ex = extractor(o.cfg, o.src, sha(repr(sorted((k, str(v)) for k, v in specs.items()))), specs)
     needed = list(o.roots) + list(o.stop)
     ex.prefetch([c for c in needed])
-    gen_text, order = ex.compose(o.roots, stop=set(o.stop) | set(o.replace), havoc=set(o.replace)) if o.roots else ('', [])
+    gen_text, order = ex.compose(o.roots, stop=set(o.stop) | set(o.replace) | set(o.stub), havoc=set(o.replace) | set(o.stub), stubbed=set(o.stub)) if o.roots else ('', [])
     tables = tabdump.generate(o.cfg, set(ex.ctx.need_globals) | set(o.globals), set(ex.ctx.need_enums) | set(o.enums), o.src)
     parts = ['/* obligation %s (%s) */' % (o.name, o.cfg)]
     for d in o.defines:
